@@ -87,12 +87,30 @@ def worker_init(ctx, tier):
     asmmon.install_walk_guard(ctx)
 
 
+_typed_cache = {}
+
+
+def _typed(enzyme):
+    from moclo.core.parts import AbstractPart
+    if enzyme not in _typed_cache:
+        V, M = gen.generic_classes(enzyme)
+        k = refmodel.geometry(gen.enzyme(enzyme))[2]
+        sig = ("N" * k, "N" * k)
+        _typed_cache[enzyme] = (type(str("TypedV_" + enzyme), (AbstractPart, V), {"cutter": gen.enzyme(enzyme), "signature": sig}),
+                                type(str("TypedM_" + enzyme), (AbstractPart, M), {"cutter": gen.enzyme(enzyme), "signature": sig}))
+    return _typed_cache[enzyme]
+
+
 def _run(ctx, enzyme, v, mods, order=None):
     """one assemble() over fresh entities; v = (start, end) of the vector, mods = [(start, end)] in argument order"""
     from Bio.Seq import Seq
     from moclo.record import CircularRecord
 
     V, M = gen.generic_classes(enzyme)
+    if (len(mods) + sum(map(ord, v[0] + v[1]))) % 3 == 0:
+        # the same graph with vector and modules typed by part classes whose signatures are all wildcards
+        V, M = _typed(enzyme)
+        ctx.count("c03_typed_part_classes_runs")
     # record-wide annotations of any shape: the outcome is a function of the overhang graph, not of the plasmids' metadata
     ann = lambda *k: gen.annotation_variety("c03", enzyme, *k)
     vec = V(CircularRecord(Seq(_plasmid(enzyme, "V", v[0], v[1])), "v", annotations=ann("v", v[0], v[1], len(mods))))
